@@ -413,7 +413,32 @@ def r16_12(ctx: Ctx, rule: str = "R16.12") -> None:
                   construct="backslash replaced after normalisation")
 
 
+def r16_14(ctx: Ctx, rule: str = "R16.14") -> None:
+    """what is left of a name after separators and a drive prefix were removed may be NOTHING ('/', 'c:'): only a directory can be stored under
+    the empty name (the root); a file or link stored as '.' gives an archive that lists a file called '.' and cannot be extracted.  write()
+    refuses: a test of the sanitised name against '' whose true arm raises dominates the construction of the member's record."""
+    f = shared.szf(ctx, "write")
+    cfg = cfg_of(f.node)
+    mk = [c for c in q.calls(f) if attr_tail(c) == "_make_file_info"]
+    ctx.floor(rule, len(mk), 1, "_make_file_info call in write")
+    for c in mk:
+        cn = q.node_for(f, c)
+        ok = False
+        for t in cfg.nodes:
+            if t.kind != "test" or not cfg.dominates(t, cn):
+                continue
+            empties = any(isinstance(x, ast.Compare) and isinstance(x.left, ast.Name) and x.left.id == "arcname" and any(
+                isinstance(k, ast.Constant) and k.value == "" for cmp_ in x.comparators for k in ast.walk(cmp_)) for x in ast.walk(t.ast))
+            kinds = any(isinstance(x, ast.Call) and attr_tail(x) == "is_dir" for x in ast.walk(t.ast))
+            raises = any(e.kind == "true" and q.branch_always_raises(cfg, e) for e in t.succ)
+            ok = ok or (empties and kinds and raises)
+        ctx.check(ok, rule, f, c, "an empty sanitised name is accepted for a directory only",
+                  "write() builds the member's record without refusing an EMPTY sanitised name for a file or link: a file called 'C:' (or a link at '/') in a tree archived with "
+                  "writeall('.') is stored as the file member '.', and extractall() of that archive dies with IsADirectoryError", construct="file stored under the empty name")
+
+
 def run(ctx: Ctx) -> None:
+    r16_14(ctx)
     r16_12(ctx)
     from . import c02 as _c02
     _c02.r02_15(ctx, rule="R16.13")  # '' is a name, None is 'no name'
